@@ -201,12 +201,12 @@ void gen_table(Plan& p, Rng& r, bool hostile)
     p.cfg.gf.many_slots = hostile;  // blob values outside the encodable domain (long labels, non-finite doubles)
     int n = 5 + (int)r.below(16);
     p.steps.push_back(mk("t_add", r, 0, draw_size(r)));
-    std::vector<unsigned> w = {14, 8, 30, 5, 5, 3, 10, 9, 5, 8, 4, 2, 3, 2};
+    std::vector<unsigned> w = {14, 8, 30, 5, 5, 3, 10, 9, 5, 8, 4, 2, 3, 2, 3};
     for (auto& x : w)
         if (r.chance(1, 6))
             x = 0;
     static const char* ops[] = {"t_add", "t_update", "t_setcol", "t_remove", "t_rewrite", "t_missing", "p_add",
-                                "p_update", "p_remove", "e_add", "e_remove", "e_clear", "reload", "clock"};
+                                "p_update", "p_remove", "e_add", "e_remove", "e_clear", "reload", "clock", "i_played"};
     for (int i = 0; i < n; ++i)
         p.steps.push_back(mk(ops[r.weighted(w)], r, 4, draw_size(r)));
 }
@@ -281,8 +281,9 @@ void gen_cross(Plan& p, Rng& r)
     p.steps.push_back(mk("create_root", r, 0, 1));
     static const char* ops[] = {"t_add", "t_update", "t_setcol", "t_remove", "p_add", "p_update", "p_remove", "e_add", "e_remove", "e_clear",
                                 "create_track", "set", "remove_track", "create_root", "create_sub", "create_sub_after", "set_name",
-                                "set_parent", "remove_crate", "add_track", "remove_from", "clear", "reload", "rewrite", "update"};
-    std::vector<unsigned> w = {8, 4, 10, 4, 10, 8, 4, 8, 4, 2, 5, 12, 3, 4, 6, 4, 3, 6, 4, 8, 4, 2, 3, 2, 3};
+                                "set_parent", "remove_crate", "add_track", "remove_from", "clear", "reload", "rewrite", "update",
+                                "i_played"};
+    std::vector<unsigned> w = {8, 4, 10, 4, 10, 8, 4, 8, 4, 2, 5, 12, 3, 4, 6, 4, 3, 6, 4, 8, 4, 2, 3, 2, 3, 2};
     for (auto& x : w)
         if (r.chance(1, 6))
             x = 0;
